@@ -6,10 +6,14 @@ from codec_common import SPELLINGS, PACKED, BINARY, DISPLAY, FLOAT4, FLOAT8, can
 from layout_common import gen_tree, print_copybook, assign_names, tree_sx, schema_sx
 
 GEN = ["JsonTypeParams", "EstructParams", "Cp037", "ConversionParams"]
-RULE = ("field: EVERY (13 USAGE spellings x unsigned/signed x (m,n) with 1<=m+n<=18 x {digit runs written out, 9(m), 9(n), both}) single-field copybook through "
+RULE = ("field: EVERY (13 USAGE spellings x unsigned/signed x (m,n) with 1<=m+n<=18 x {digit runs written out, 9(m), 9(n), both}) copybook through "
         "schema_iter (type, contentEncoding, conversion, minLength, maxLength of the field), the same field through "
         "JSONSchemaMakerExtendedVocabulary and type(EBCDIC().nav(...).name(f).value()) on a record holding the mainframe encoding of a random value "
         "(the judge checks the picture text IS the printed picture and the bytes ARE the specification's encoding); text X(k)/A(k). "
+        "Every copybook holds SEVERAL 01 records that declare the same data names (FLD, FILLER; N<id> in trees) with other pictures, usages and "
+        "structure; the record of interest is not the first (streams field-other-record / field-filler / tree-first-record / tree-third-record look at "
+        "the other positions and at the FILLER item); the extended generator is ONE maker for all records as schema_iter has; ONE EBCDIC() serves "
+        "every value read and size fallback of the run. Tree documents are compared with the lengths they STATE (minLength = maxLength). "
         "tree: random record descriptions of C01's generator (+ FILLER redefiners) -> emitted schema compared with the model's build, "
         "Draft202012Validator.check_schema, SchemaMaker.from_json, the object every $ref / maxItemsDependsOn ended up bound to; the extended generator's "
         "document must have the same structure. meta: the whole emitted document as JSON, unchanged and with one keyword broken at a time, "
@@ -60,7 +64,7 @@ def inputs(ctx):
                     for _ in range(1 if quick else 4):
                         yield "field", dict(k=1, gen=0, u=u, pic=[0, signed, m, n, ri, rf], nav=True, seed=rng.randrange(1 << 30),
                                             no_usage=(u == DISPLAY and rng.random() < 0.3))
-                    yield "field-ext", dict(k=1, gen=1, u=u, pic=[0, signed, m, n, ri, rf], nav=False, seed=0, no_usage=False)
+                    yield "field-ext", dict(k=1, gen=1, u=u, pic=[0, signed, m, n, ri, rf], nav=False, seed=rng.randrange(1 << 30), no_usage=False)
     # ---- text pictures
     ks = list(range(1, 41)) + [64, 100, 255, 256, 1000]
     for k in ks:
@@ -69,11 +73,24 @@ def inputs(ctx):
                 if not rep and k > 40:
                     continue
                 yield "text", dict(k=1, gen=0, u=DISPLAY, pic=[1, alpha, k, rep], nav=True, seed=rng.randrange(1 << 30), no_usage=rng.random() < 0.5)
-                yield "text-ext", dict(k=1, gen=1, u=DISPLAY, pic=[1, alpha, k, rep], nav=False, seed=0, no_usage=False)
+                yield "text-ext", dict(k=1, gen=1, u=DISPLAY, pic=[1, alpha, k, rep], nav=False, seed=rng.randrange(1 << 30), no_usage=False)
+    # ---- the OTHER records of such copybooks: first / last record, and the FILLER item (same name in every record)
+    import random as _random
+    for i in range(600 if quick else 6000):
+        r2 = _random.Random(rng.randrange(1 << 30))
+        u, pic = clean_field(r2)
+        yield "field-other-record", dict(k=1, gen=i % 2, u=u, pic=pic, nav=(i % 2 == 0), seed=rng.randrange(1 << 30), no_usage=False,
+                                         pos=r2.choice([0, 0, 2]))
+        kk = r2.randint(1, 40)
+        yield "field-filler", dict(k=1, gen=i % 2, u=DISPLAY, pic=[1, False, kk, True], nav=(i % 2 == 0), seed=rng.randrange(1 << 30),
+                                   no_usage=True, pos=r2.choice([1, 1, 2]), target="FILLER")
     # ---- record trees
     n = 150 if quick else 2500
     for i in range(n):
         yield "tree", dict(k=2, seed=rng.randrange(1 << 30), opts={}, filler_redef=(i % 2 == 0))
+        if i % 5 == 0:
+            yield "tree-first-record", dict(k=2, seed=rng.randrange(1 << 30), opts={}, filler_redef=False, before=0, after=1)
+            yield "tree-third-record", dict(k=2, seed=rng.randrange(1 << 30), opts={}, filler_redef=True, before=2)
     for i in range(15 if quick else 200):
         yield "tree-redef-in-occurs", dict(k=2, seed=rng.randrange(1 << 30), opts=dict(redef_in_occurs=True, allow_odo=False), filler_redef=False)
         yield "tree-occurs-elem-in-union", dict(k=2, seed=rng.randrange(1 << 30), opts=dict(occurs_elem_in_union=True, allow_odo=False), filler_redef=False)
@@ -102,14 +119,56 @@ def pic_text(pic):
     return run_text("A" if alpha else "X", rep, k)
 
 
-def field_copybook(u, text, no_usage):
-    # one clause per line: a line reaching column 72 would lose its newline (C07 finding)
-    lines = ["       01  REC.", "           05  FLD"]
-    if no_usage:
-        lines.append(f"               PIC {text}.")
+def clean_field(rng):
+    """(usage, pic) of a field outside every known-bad family, for the OTHER records of a copybook"""
+    r = rng.randrange(4)
+    if r == 0:
+        return DISPLAY, [1, False, rng.randint(1, 30), rng.random() < 0.5]
+    if r == 1:
+        m = rng.randint(0, 9)
+        return rng.choice(PACKED), [0, rng.random() < 0.5, m, rng.randint(1 if m == 0 else 0, 9), rng.random() < 0.5, rng.random() < 0.5]
+    if r == 2:
+        m = rng.randint(0, 9)
+        return DISPLAY, [0, rng.random() < 0.5, m, rng.randint(1 if m == 0 else 0, 9), False, False]
+    return rng.choice(BINARY), [0, False, rng.randint(1, 9), rng.randint(0, 9), rng.random() < 0.5, False]
+
+
+def field_records(c):
+    """the records of the copybook: [(fld_usage, fld_pic, filler_k, no_usage)], and the index of the record of interest.
+    A copybook holds SEVERAL 01 records (schema_iter keeps one generator and one unpacker for all of them); every record
+    declares the same data names FLD and FILLER with its own USAGE / PICTURE.  The field of interest is FLD (or the FILLER)
+    of record `pos`; it comes first in its record so that the instance is value bytes + padding."""
+    import random
+    rng = random.Random(c.get("seed", 0) * 7 + 3)
+    pos = c.get("pos", 1)
+    nrec = pos + 1 + (rng.randrange(3) == 0)
+    recs = []
+    for i in range(nrec):
+        u, pic = clean_field(rng)
+        recs.append([u, pic, rng.randint(1, 40), False])
+    if c.get("target", "FLD") == "FLD":
+        recs[pos][0], recs[pos][1], recs[pos][3] = c["u"], c["pic"], c["no_usage"]
     else:
-        lines.append(f"               PIC {text}")
-        lines.append(f"               USAGE {SPELLINGS[u]}.")
+        recs[pos][2] = c["pic"][2]
+    return recs, pos
+
+
+def field_copybook(c):
+    # one clause per line: a line reaching column 72 would lose its newline (C07 finding)
+    recs, pos = field_records(c)
+    filler_first = c.get("target", "FLD") == "FILLER"
+    lines = []
+    for i, (u, pic, fk, no_usage) in enumerate(recs):
+        lines.append(f"       01  R{i}.")
+        fld = ["           05  FLD"]
+        if no_usage:
+            fld.append(f"               PIC {pic_text(pic)}.")
+        else:
+            fld.append(f"               PIC {pic_text(pic)}")
+            fld.append(f"               USAGE {SPELLINGS[u]}.")
+        filler_pic = pic_text(c["pic"]) if (filler_first and i == pos) else f"X({fk})"
+        fil = ["           05  FILLER", f"               PIC {filler_pic}."]
+        lines += (fil + fld) if (filler_first and i == pos) else (fld + fil)
     return "\n".join(lines) + "\n"
 
 
@@ -152,37 +211,56 @@ def keywords(f):
     return [code(TYPES, "type"), code(ENCODINGS, "contentEncoding"), code(CONVERSIONS, "conversion"), length("minLength"), length("maxLength")]
 
 
+_SHARED = {}
+
+
+def shared_unpacker():
+    """ONE EBCDIC() for every value read of a run (a file's workbook keeps one unpacker for all its schemas)"""
+    if "u" not in _SHARED:
+        from stingray.schema_instance import EBCDIC
+        _SHARED["u"] = EBCDIC()
+    return _SHARED["u"]
+
+
 def observe_field(c):
     import random
     from lib import observe_call, S
     text = pic_text(c["pic"])
-    cb = field_copybook(c["u"], text, c["no_usage"])
+    cb = field_copybook(c)
+    recs, pos = field_records(c)
+    target = c.get("target", "FLD")
     holder = {}
 
     def emit():
         from stingray.cobol_parser import schema_iter, structure, dde_sentences, reference_format, JSONSchemaMakerExtendedVocabulary
         if c["gen"] == 0:
-            (js,) = list(schema_iter(io.StringIO(cb)))
+            docs = list(schema_iter(io.StringIO(cb)))
         else:
-            (dde,) = list(structure(dde_sentences(reference_format(io.StringIO(cb)))))
-            js = JSONSchemaMakerExtendedVocabulary().jsonschema(dde)
+            maker = JSONSchemaMakerExtendedVocabulary()          # one generator for all records, as schema_iter has
+            docs = [maker.jsonschema(dde) for dde in structure(dde_sentences(reference_format(io.StringIO(cb))))]
+        assert len(docs) == len(recs)
+        js = docs[pos]
         holder["js"] = js
-        return js["properties"]["FLD"]
+        names = [k for k in js["properties"] if k.startswith(target)]
+        assert len(names) == 1
+        holder["name"] = names[0]
+        return js["properties"][names[0]]
     emitted = observe_call(emit, keywords)
-    val, buf, nav = [0], [], [2]
+    val, buf, nav, pad = [0], [], [2], []
     if c["nav"] and c["gen"] == 0 and emitted[0] == 0:
-        val, buf = make_value(c, random.Random(c["seed"]))
+        rng = random.Random(c["seed"])
+        val, buf = make_value(c, rng)
+        pad = [rng.randrange(256) for _ in range(64)]           # the rest of the record
 
         def deliver():
-            from stingray.schema_instance import SchemaMaker, EBCDIC, BytesInstance
+            from stingray.schema_instance import SchemaMaker, BytesInstance
             schema = SchemaMaker.from_json(holder["js"])
-            unpacker = EBCDIC()
-            nav = unpacker.nav(schema, BytesInstance(bytes(buf)))
-            return nav.name("FLD").value()
+            nav = shared_unpacker().nav(schema, BytesInstance(bytes(buf + pad)))
+            return nav.name(holder["name"]).value()
         nav = observe_call(deliver, lambda v: [PYTYPES.get(type(v).__name__, 99), canon(v)])
         if nav[0] == 0:
             nav = [0, nav[1][0], nav[1][1]]
-    return [1, c["gen"], c["u"], c["pic"], S(text), val, buf, emitted, nav]
+    return [1, c["gen"], c["u"], c["pic"], S(text), val, buf, emitted, nav, pad]
 
 
 # ---------------------------------------------------------------- kind 2: record trees
@@ -257,30 +335,71 @@ def clean(x):
     return -1
 
 
+def tree_copybook(c):
+    """the copybook text: the record of interest between other 01 records (before: c['before'], default 1; after: 0 or 1).
+    The other records are clean trees of the same generator, so they declare the SAME data names (N<id>, FILLER)
+    with other pictures, usages and structure.  Returns (text, index of the record of interest, number of records)."""
+    import random
+    tree, fillers = make_tree(c)
+    r = random.Random(c["seed"] * 5 + 1)
+    before = c.get("before", 1)
+    after = c.get("after", r.randrange(2))
+    texts = []
+    for i in range(before + after):
+        other = gen_tree(random.Random(r.randrange(1 << 30)))
+        texts.append(print_copybook(other))
+    texts.insert(before, print_copybook(tree))
+    return "".join(texts), before, before + after + 1
+
+
+class EmittedSizes:
+    """size of an elementary schema AS THE DOCUMENT STATES IT: minLength (= maxLength); the inner item of an elementary
+    OCCURS carries no lengths, there the size is what the run's one long-lived unpacker computes"""
+    def calcsize(self, schema):
+        a = schema.attributes
+        if "minLength" in a or "maxLength" in a:
+            mn, mx = a.get("minLength"), a.get("maxLength")
+            return mn if (isinstance(mn, int) and mn == mx) else -1
+        return shared_unpacker().calcsize(schema)
+
+
+def records_of(it, n):
+    """the first n results of an iterator of documents, an exception in place of the record that raised (later ones are lost)"""
+    out = []
+    for _ in range(n):
+        try:
+            out.append(next(it))
+        except StopIteration:
+            break
+        except BaseException as ex:
+            if isinstance(ex, (KeyboardInterrupt, SystemExit, MemoryError)):
+                raise
+            out.append(ex)
+    return out
+
+
 def observe_tree(c):
     from lib import exn_code
     tree, fillers = make_tree(c)
     names = assign_names(tree)
     rev = {v: k for k, v in names.items()}
-    cb = print_copybook(tree)
+    cb, pos, nrec = tree_copybook(c)
     from stingray.cobol_parser import schema_iter, structure, dde_sentences, reference_format, JSONSchemaMakerExtendedVocabulary
-    from stingray.schema_instance import SchemaMaker, EBCDIC
+    from stingray.schema_instance import SchemaMaker
     from jsonschema import Draft202012Validator
-    try:
-        (js,) = list(schema_iter(io.StringIO(cb)))
-        schema_obs = [0, clean(schema_sx(js, rev, EBCDIC()))]
-    except BaseException as ex:
-        if isinstance(ex, (KeyboardInterrupt, SystemExit, MemoryError)):
-            raise
-        js, schema_obs = None, [1, exn_code(ex)]
-    try:
-        (dde,) = list(structure(dde_sentences(reference_format(io.StringIO(cb)))))
-        xjs = JSONSchemaMakerExtendedVocabulary().jsonschema(dde)
-        ext_obs = [0, clean(schema_sx(xjs, rev, EBCDIC()))]
-    except BaseException as ex:
-        if isinstance(ex, (KeyboardInterrupt, SystemExit, MemoryError)):
-            raise
-        ext_obs = [1, exn_code(ex)]
+    docs = records_of(iter(schema_iter(io.StringIO(cb))), nrec)
+    js = docs[pos] if pos < len(docs) else RuntimeError("record missing")
+    if isinstance(js, BaseException):
+        js, schema_obs = None, [1, exn_code(js)]
+    else:
+        schema_obs = [0, clean(schema_sx(js, rev, EmittedSizes()))]
+    maker = JSONSchemaMakerExtendedVocabulary()                   # one generator for all records, as schema_iter has
+    xdocs = records_of((maker.jsonschema(dde) for dde in structure(dde_sentences(reference_format(io.StringIO(cb))))), nrec)
+    xjs = xdocs[pos] if pos < len(xdocs) else RuntimeError("record missing")
+    if isinstance(xjs, BaseException):
+        ext_obs = [1, exn_code(xjs)]
+    else:
+        ext_obs = [0, clean(schema_sx(xjs, rev, EmittedSizes()))]
     check_obs, load_obs, sites = [2], [2], []
     if js is not None:
         try:
@@ -374,9 +493,9 @@ def observe(ctx, c):
 def describe(c):
     if c["k"] == 1:
         return dict(c, picture=pic_text(c["pic"]), usage=SPELLINGS[c["u"]], generator="extended" if c["gen"] else "standard",
-                    copybook=field_copybook(c["u"], pic_text(c["pic"]), c["no_usage"]))
+                    copybook=field_copybook(c), record_of_interest=field_records(c)[1], item=c.get("target", "FLD"))
     if c["k"] == 2:
-        tree, fillers = make_tree(c)
-        return dict(c, copybook=print_copybook(tree))
+        cb, pos, nrec = tree_copybook(c)
+        return dict(c, copybook=cb, record_of_interest=pos)
     tree, _ = make_tree(dict(seed=c["seed"], opts={}, filler_redef=True))
     return dict(c, mutation=(MUTATIONS[c["mut"] - 1] if c["mut"] else None), copybook=print_copybook(tree))
